@@ -14,7 +14,8 @@ Record step := mkStep {
   t_root : bytes;                           (* root id after the request *)
   t_dump : list edge_view }.                (* every edge into every known node, sorted like [project] *)
 
-Record case := mkCase { c_root : bytes; c_init : list edge_view; c_steps : list step }.
+Record case := mkCase { c_root : bytes; c_init : list edge_view; c_steps : list step;
+                        c_verify : N (* mismatches logged by admin.storeVerify at the end *) }.
 
 (* ---------- decoding ---------- *)
 Definition point_of_val (v : val) : option point :=
@@ -62,9 +63,9 @@ Definition step_of_val (v : val) : option step :=
 
 Definition case_of_val (v : val) : option case :=
   match v with
-  | VL [root; init; steps] =>
-      root <- get_b root ;; init <- views_of_val init ;; steps <- get_list step_of_val steps ;;
-      Some (mkCase root init steps)
+  | VL [root; init; steps; vf] =>
+      root <- get_b root ;; init <- views_of_val init ;; steps <- get_list step_of_val steps ;; vf <- get_n vf ;;
+      Some (mkCase root init steps vf)
   | _ => None
   end.
 
@@ -101,7 +102,8 @@ Definition corr_case (c : case) : bool := corr_steps (store_of_views (c_root c) 
 Definition answered (c : case) : bool := forallb (fun t => negb (t_reply t =? 2)) (c_steps c).
 
 Definition spec_c03 (c : case) : bool :=
-  answered c && spec_hashes_ok (c_init c) && forallb (fun t => spec_hashes_ok (t_dump t)) (c_steps c).
+  answered c && spec_hashes_ok (c_init c) && forallb (fun t => spec_hashes_ok (t_dump t)) (c_steps c) &&
+  (c_verify c =? 0).
 
 (* propagation clause: an accepted write that changes the content of a node (or of an existing edge)
    changes the hash of that placement and of every ancestor edge.  Evaluated separately: the XOR
